@@ -129,14 +129,28 @@ type sched struct {
 	abort    string
 	detail   string
 	maxSteps int
+	por      bool
+	sleep    []trans
 }
 
 var cur *sched
 
 // Run executes main as virtual goroutine 0 (site "main") under the strategy until every goroutine has
 // finished, or a panic, a deadlock or the step limit is hit.  Not reentrant: one run at a time.
-func Run(strat Strategy, maxSteps int, main func()) *Result {
-	s := &sched{strat: strat, yield: make(chan *g), res: &Result{}, maxSteps: maxSteps}
+func Run(strat Strategy, maxSteps int, main func()) *Result { return run(strat, maxSteps, false, main) }
+
+// RunPOR is Run with sleep-set partial-order reduction, for depth-first exploration with the Replay
+// strategy (choices explored in increasing order): a transition that was already explored from an
+// earlier sibling and is independent of everything executed since is not explored again.  Two
+// transitions are independent when they involve different goroutines and different objects (channel,
+// WaitGroup, marked variable).  Every Mazurkiewicz trace (hence every reachable deadlock, panic and
+// final outcome) keeps at least one representative; a run whose every enabled transition is asleep
+// ends with Outcome "pruned".  Properties checked on POR runs must not depend on the relative order
+// of independent steps (the checks in harness/conc use happens-before, not log positions).
+func RunPOR(strat Strategy, maxSteps int, main func()) *Result { return run(strat, maxSteps, true, main) }
+
+func run(strat Strategy, maxSteps int, por bool, main func()) *Result {
+	s := &sched{strat: strat, yield: make(chan *g), res: &Result{}, maxSteps: maxSteps, por: por}
 	cur = s
 	defer func() { cur = nil }()
 	s.ready = append(s.ready, s.newG("main", main))
@@ -161,6 +175,26 @@ func Run(strat Strategy, maxSteps int, main func()) *Result {
 			}
 			break
 		}
+		if s.por {
+			var cand []trans
+			for _, t := range ts {
+				asleep := false
+				for _, u := range s.sleep {
+					if u.same(t) {
+						asleep = true
+						break
+					}
+				}
+				if !asleep {
+					cand = append(cand, t)
+				}
+			}
+			if len(cand) == 0 {
+				s.abort, s.detail = "pruned", "every enabled transition is in the sleep set"
+				break
+			}
+			ts = cand
+		}
 		pick := 0
 		if len(ts) > 1 { // only real decisions are recorded (and consume a strategy choice)
 			pick = s.strat.Choose(len(ts))
@@ -168,6 +202,15 @@ func Run(strat Strategy, maxSteps int, main func()) *Result {
 				pick = 0
 			}
 			s.res.Choices = append(s.res.Choices, Choice{len(ts), pick})
+		}
+		if s.por {
+			var ns []trans
+			for _, u := range append(s.sleep, ts[:pick]...) {
+				if u.indep(ts[pick]) {
+					ns = append(ns, u)
+				}
+			}
+			s.sleep = ns
 		}
 		s.fire(ts[pick])
 		s.res.Steps++
@@ -248,6 +291,52 @@ type trans struct {
 	x    *g
 	r    *g  // receiver of an xfer
 	idx  int // select case index of the goroutine that receives
+}
+
+func (t trans) same(u trans) bool { return t.x == u.x && t.r == u.r && t.idx == u.idx && t.kind == u.kind }
+
+// object touched by the transition (nil for go)
+func (t trans) object() any {
+	o := t.x.op
+	switch t.kind {
+	case "go":
+		return nil
+	case "add", "wait":
+		return o.wg
+	case "mark":
+		return o.names
+	case "pop", "recvc":
+		if o.kind == opSelect {
+			return o.cases[t.idx]
+		}
+		return o.ch
+	}
+	return o.ch
+}
+
+func (t trans) indep(u trans) bool {
+	if t.x == u.x || (t.r != nil && (t.r == u.x || t.r == u.r)) || (u.r != nil && u.r == t.x) {
+		return false
+	}
+	a, b := t.object(), u.object()
+	if a == nil || b == nil {
+		return true
+	}
+	if sa, ok := a.(string); ok {
+		sb, ok := b.(string)
+		if !ok {
+			return true
+		}
+		for _, x := range strings.Split(sa, ",") {
+			for _, y := range strings.Split(sb, ",") {
+				if x == y {
+					return false
+				}
+			}
+		}
+		return true
+	}
+	return a != b
 }
 
 func (o *op) describe() string {
